@@ -315,16 +315,29 @@ func doTraverseMergedMap(newMatches *orderedmap.OrderedMap, node *CandidateNode,
 			log.Debug("MATCHED")
 			if prefs.IncludeMapKeys {
 				log.Debug("including key")
-				newMatches.Set(key.GetKey(), key)
+				newMatches.Set(mapEntryMatchKey(key), key)
 			}
 			if !prefs.DontIncludeMapValues {
 				log.Debug("including value")
-				newMatches.Set(value.GetKey(), value)
+				newMatches.Set(mapEntryMatchKey(value), value)
 			}
 		}
 	}
 
 	return nil
+}
+
+// mapEntryMatchKey identifies an entry among the entries of ONE map and of the maps merged into it: by its key.
+// (GetKey also holds the document index, which differs between a copy of a map made by an operator and the anchored
+// maps of a later document it merges: the merged entry then no longer gave way to the map's own entry.)
+func mapEntryMatchKey(n *CandidateNode) string {
+	if n.IsMapKey {
+		return "key-" + n.Value
+	}
+	if n.Key != nil {
+		return "value-" + n.Key.Value
+	}
+	return "value-"
 }
 
 func traverseMergeAnchor(newMatches *orderedmap.OrderedMap, value *CandidateNode, wantedKey string, prefs traversePreferences, splat bool, mergedFrom []*CandidateNode) error {
